@@ -226,7 +226,9 @@ class Program:
         return [ast.unparse(d) for d in getattr(node, 'decorator_list', [])]
 
     def is_dataclass(self, cls: ast.ClassDef) -> bool:
-        return any(d.split('(')[0].split('.')[-1] == 'dataclass' for d in self.decorators(cls))
+        if any(d.split('(')[0].split('.')[-1] == 'dataclass' for d in self.decorators(cls)): return True
+        # a typing.NamedTuple subclass is a record with declared fields, too (positional order = declaration order)
+        return any(ast.unparse(b).split('.')[-1] == 'NamedTuple' for b in cls.bases)
 
     def is_frozen(self, cls: ast.ClassDef) -> bool:
         return any('frozen=True' in d.replace(' ', '') for d in self.decorators(cls))
